@@ -57,14 +57,18 @@ def listMinR : List Rat → Rat
   | [a] => a
   | a :: t => let m := listMinR t; if a < m then a else m
 
+/-- a scaled extreme of the values: `int(v * (1 << n_frac))`, or `int(v / (1 << -n_frac))` (toward zero) for a negative (given) fraction length. -/
+def scaledExt (nf0 : Int) (v : Rat) : Int :=
+  if 0 ≤ nf0 then truncInt (v * (2 ^ nf0.toNat : Nat)) else truncInt (v / (2 ^ (-nf0).toNat : Nat))
+
 /-- `set_best_sizes(val, n_word, n_frac)` for a non-empty list of values; returns `(n_word, n_frac)`. -/
 def bestSizes (signed : Bool) (vals : List Rat) (nword nfrac : Option Int) : Int × Int :=
   let sign : Nat := if signed then 1 else 0
   let nf0 : Int := match nfrac with
     | some f => f
     | none => (maxNat (vals.map (fracBits sign)) : Nat)
-  let vmax := truncInt (listMaxR vals * (2 ^ nf0.toNat : Nat))
-  let vmin := truncInt (listMinR vals * (2 ^ nf0.toNat : Nat))
+  let vmax := scaledExt nf0 (listMaxR vals)
+  let vmin := scaledExt nf0 (listMinR vals)
   let bits := intLoop (vmax.natAbs + vmin.natAbs + 2) vmax vmin 0
   let nint : Int := max ((bits : Int) - nf0) 0
   let (w, f) : Int × Int := match nword with
